@@ -6,10 +6,12 @@ import (
 	"fmt"
 	"go/token"
 	"os"
+	"os/signal"
 	"path/filepath"
 	"sort"
 	"strings"
 	"sync"
+	"syscall"
 	"time"
 
 	"golang.org/x/tools/go/packages"
@@ -155,10 +157,21 @@ func main() {
 	if *verbose {
 		fmt.Fprintf(os.Stderr, "loaded in %.1fs; %d contracts\n", time.Since(t0).Seconds(), len(g.specs.Contracts))
 	}
+	cleanup := func() {}
 	if *work == "" {
+		// scratch directory for the SMT files of this run: removed on every way out (os.Exit does not
+		// run deferred calls, so the exits below call cleanup themselves)
 		d, _ := os.MkdirTemp("", "govc")
 		*work = d
-		defer os.RemoveAll(d)
+		cleanup = func() { os.RemoveAll(d) }
+		defer cleanup()
+		sig := make(chan os.Signal, 1)
+		signal.Notify(sig, syscall.SIGINT, syscall.SIGTERM, syscall.SIGHUP)
+		go func() {
+			<-sig
+			cleanup()
+			os.Exit(130)
+		}()
 	}
 	cfg := SolverCfg{QuickMs: 5000, FallbackMs: 10000, WorkDir: *work}
 	if *tier == "thorough" {
@@ -175,7 +188,9 @@ func main() {
 		return
 	}
 	if *prop != "" {
-		os.Exit(runProperty(g, *prop, *tier, *out, cfg, t0))
+		rc := runProperty(g, *prop, *tier, *out, cfg, t0)
+		cleanup()
+		os.Exit(rc)
 	}
 	var cts []*Contract
 	want := map[string]bool{}
